@@ -187,6 +187,12 @@ class _ExprNorm(ast.NodeTransformer):
                 return ast.copy_location(ast.IfExp(test=v.value.test, body=variant(v.value.body), orelse=variant(v.value.orelse)), node)
         return _merge_joined(node)
 
+    def visit_UnaryOp(self, node):
+        self.generic_visit(node)
+        if isinstance(node.op, ast.Not) and isinstance(node.operand, ast.UnaryOp) and isinstance(node.operand.op, ast.Not):
+            return node.operand.operand       # not not x (only ever used as a test)
+        return node
+
     def visit_IfExp(self, node):
         self.generic_visit(node)
         # N5: x if not c else y -> y if c else x
@@ -227,6 +233,12 @@ class _ExprNorm(ast.NodeTransformer):
 
     def visit_Compare(self, node):
         self.generic_visit(node)
+        # x in frozenset(Y) / set(Y) / tuple(Y) / list(Y)  ->  x in Y     (membership does not care about the container kind)
+        if len(node.ops) == 1 and isinstance(node.ops[0], (ast.In, ast.NotIn)):
+            rhs = node.comparators[0]
+            if isinstance(rhs, ast.Call) and isinstance(rhs.func, ast.Name) and rhs.func.id in ("set", "frozenset", "tuple", "list") \
+                    and len(rhs.args) == 1 and not rhs.keywords and not isinstance(rhs.args[0], (ast.GeneratorExp, ast.ListComp, ast.SetComp)):
+                node.comparators[0] = rhs.args[0]
         # len(list(filter(lambda v: P(v), IT))) > 0  /  len([v for v in IT if P(v)]) > 0   ->   any(P(v) for v in IT)
         if len(node.ops) == 1 and isinstance(node.ops[0], (ast.Gt, ast.NotEq)) and isinstance(node.comparators[0], ast.Constant) and node.comparators[0].value == 0 \
                 and isinstance(node.left, ast.Call) and isinstance(node.left.func, ast.Name) and node.left.func.id == "len" and len(node.left.args) == 1:
@@ -426,14 +438,6 @@ def norm_block(stmts: list) -> list:
                 continue
         unrolled.append(s)
     stmts = unrolled
-    # recurse first
-    for s in stmts:
-        for f in ("body", "orelse", "finalbody"):
-            b = getattr(s, f, None)
-            if isinstance(b, list) and b and isinstance(b[0], ast.stmt) and not isinstance(s, (ast.FunctionDef, ast.AsyncFunctionDef, ast.ClassDef)):
-                setattr(s, f, norm_block(b))
-        for h in getattr(s, "handlers", []) or []:
-            h.body = norm_block(h.body)
     # loop bodies: `if c: continue` + rest  ->  `if not c: rest` ; `if a: if b: X`  ->  `if a and b: X`
     for s in stmts:
         if isinstance(s, (ast.For, ast.AsyncFor)):
@@ -452,6 +456,14 @@ def norm_block(stmts: list) -> list:
                     body = [ast.copy_location(ast.If(test=ast.BoolOp(op=ast.And(), values=[body[0].test, inner_.test]), body=inner_.body, orelse=[]), body[0])]
                     changed_ = True
             s.body = body
+    # recurse first
+    for s in stmts:
+        for f in ("body", "orelse", "finalbody"):
+            b = getattr(s, f, None)
+            if isinstance(b, list) and b and isinstance(b[0], ast.stmt) and not isinstance(s, (ast.FunctionDef, ast.AsyncFunctionDef, ast.ClassDef)):
+                setattr(s, f, norm_block(b))
+        for h in getattr(s, "handlers", []) or []:
+            h.body = norm_block(h.body)
     i = 0
     n = len(stmts)
     while i < n:
@@ -488,8 +500,7 @@ def norm_block(stmts: list) -> list:
                     i += 1
                     continue
             # ---- x = ... (earlier in this block) ; ... ; if c: x = A     ->   x = A if c else x   (SSA renaming then separates the versions)
-            if aa is not None and not s.orelse and out and _single_assign([out[-1]]) is not None and _single_assign([out[-1]])[0] != aa[0] \
-                    and any((_single_assign([o]) or ("",))[0] == aa[0] for o in out):
+            if aa is not None and not s.orelse and not (out and (_single_assign([out[-1]]) or ("",))[0] == aa[0]):
                 out.append(ast.copy_location(ast.Assign(targets=[ast.Name(id=aa[0], ctx=ast.Store())],
                                                         value=_ifexp(s.test, aa[1], ast.Name(id=aa[0], ctx=ast.Load()))), s))
                 i += 1
@@ -616,6 +627,24 @@ def _ssa_nested(block: list, whole: list, params: Set[str], counts: Dict[str, in
         if a is not None:
             top_defs[a[0]] = top_defs.get(a[0], 0) + 1
     cands = {x for x, k in top_defs.items() if k >= 2 and counts.get(x, 0) == k and x not in params}
+    # x = f(x) once in this block, x bound once more outside it, and x not used after the block: a new version local to the block
+    last_line = max((getattr(n, "lineno", 0) for s in block for n in ast.walk(s)), default=0)
+    out_ = []
+    renamed = False
+    for idx, s in enumerate(block):
+        a = _single_assign([s])
+        if (a is not None and a[0] not in cands and a[0] not in params and top_defs.get(a[0]) == 1 and counts.get(a[0], 0) == 2
+                and a[0] in names_loaded(a[1]) and last_line
+                and not any(isinstance(n, ast.Name) and n.id == a[0] and getattr(n, "lineno", 0) > last_line for t in whole for n in ast.walk(t))):
+            new = f"{a[0]}__b{idx}"
+            counts[a[0]] = counts.get(a[0], 0) - 1
+            counts[new] = 1
+            rest_ = [subst(t, {a[0]: ast.Name(id=new, ctx=ast.Load())}) for t in block[idx + 1:]]
+            out_ = block[:idx] + [ast.copy_location(ast.Assign(targets=[ast.Name(id=new, ctx=ast.Store())], value=a[1]), s)] + rest_
+            renamed = True
+            break
+    if renamed:
+        return _ssa_nested(out_, whole, params, counts)
     if not cands:
         return block
     inside = sum(1 for s in block for n in ast.walk(s) if isinstance(n, ast.Name) and n.id in cands)
